@@ -55,6 +55,11 @@ def handle : Handler := fun op args =>
   | "c06.gammaq" => withArgs (do let x ← pRat; let a ← pRat; pure (x, a)) args fun (x, a) => showQ x a
   | "c06.gammap" => withArgs (do let x ← pRat; let a ← pRat; pure (x, a)) args fun (x, a) => showQ x a
   | "c06.uplow" => withArgs (do let x ← pRat; let a ← pRat; pure (x, a)) args fun (x, a) => showQ x a
+  | "c06.qscan" => withArgs (do let a ← pRat; let r0 ← pRat; let dr ← pRat; let n ← pNat; pure (a, r0, dr, n)) args fun (a, _, _, n) =>
+      -- every abscissa of the scan is a request with a > 100: the quadrature branch (or x ≤ 0, not evaluated)
+      match gammaQBranch 1 a with
+      | .ok .quad => "ok quad " ++ toString n
+      | _ => "undef"
   | "c06.invp" => withArgs (do let p ← pRat; let a ← pRat; pure (p, a)) args fun (p, a) =>
       match invBranch p a with
       | .error _ => "err"
